@@ -161,6 +161,8 @@ def run_full(sc, res):
     quiesce.pos = 0
     quiesce.n = 0
     tr = cons.run_scenario(sc, hooks=dict(quiesce=quiesce))
+    if tr.capped and cons.report_spin(res, tr):
+        return
     if tr.capped:
         res.inconclusive.append("scenario aborted: %s" % getattr(tr, "cap_reason", "?"))
         return tr
@@ -236,7 +238,7 @@ def crash_and_resume(sc, k, res):
         res.inconclusive.append("resume run aborted: %r" % (e,))
         return True
     lg = cl.log(cons.TOPIC, cons.PART)
-    all_offs = [o for b in lg.batches for o in b.offsets]
+    all_offs = lg.offsets_from(0)  # record offsets (a wrapper with nothing left in it holds none)
     res.hit("resumes_from_committed")
     if stored is not None:
         c = stored[0]
